@@ -8,6 +8,8 @@ run_demo() { (cd "$WT" && PYTHONPATH="$WT/src" PSYCLONE_CONFIG="$WT/config/psycl
 echo "demo on unchanged tree: exit $(run_demo)"
 git -C "$WT" apply "$OUT/patch.diff" || { echo "patch does not apply"; git -C /repo worktree remove --force "$WT"; exit 2; }
 echo "demo with change:        exit $(run_demo)"; tail -3 /var/tmp/seedtest-$ID.demo.log
+cp /verif/evidence/$ID.json /var/tmp/seedtest-$ID.evidence.bak 2>/dev/null
 cd /verif && VERIF_REPO="$WT" timeout 3000 ./check "$ID" --tier "$TIER" 2>&1 | grep -E "VIOLATION|KNOWN-FINDING|done tier" | cut -c1-260
 for f in $(ls -t /verif/replays/$ID-*.json 2>/dev/null | head -2); do echo "--- $f"; head -c 1500 "$f"; echo; done
-git -C /repo worktree remove --force "$WT"; rm -f /var/tmp/seedtest-$ID.demo.log
+cp /verif/evidence/$ID.json /var/tmp/seedtest-$ID.evidence.seeded 2>/dev/null; mv /var/tmp/seedtest-$ID.evidence.bak /verif/evidence/$ID.json 2>/dev/null
+git -C /repo worktree remove --force "$WT"; rm -f /var/tmp/seedtest-$ID.demo.log /var/tmp/seedtest-$ID.evidence.seeded
